@@ -22,6 +22,8 @@ def gen(rng, k, flavour="mix"):
             nat[1] = 1
     if flavour in ("mtu", "mix") and r.random() < (0.9 if flavour == "mtu" else 0.2):
         mtu = r.choice([1, 2, 100, 536, 1474, 1475, 1476, 9000])
+    if flavour == "mtu" and nat is None and r.random() < 0.3:
+        nat = {2: 0}          # the first client sits behind a NAT: the MTU is a matter of the real addresses
     small_mtu = mtu is not None and mtu < 100
     net = Net(r, nnodes=3, nat=nat, cap=cap, lossy=lossy, mtu=mtu, probes=(flavour in ("mtu", "probe") or r.random() < 0.2),
               bw=r.choice([0, 200000, 800000, 50000000, 5000]), lat=r.choice([0, 1000000, 30000000, 500000000]),
@@ -30,6 +32,9 @@ def gen(rng, k, flavour="mix"):
     if flavour == "mtu" or (mtu and r.random() < 0.5):
         L.append("MTUP 0 %d 0 %d %d" % (A1 + 1, A1, r.choice([1, 100, 536, 1475, 3000])))
         L.append("MTUP 0 %d 0 %d %d" % (A1, A1 + 1, r.choice([1, 100, 536, 1475, 3000])))
+        if nat and 2 in nat:
+            L.append("MTUP 0 %d 0 %d %d" % (A1, ncommon.EXT + nat[2], r.choice([1475, 3000, 9000])))
+            L.append("MTUP 0 %d 0 %d %d" % (ncommon.EXT + nat[2], A1, r.choice([1475, 3000, 9000])))
     ops = []
     H = {}
     hid = [100]
